@@ -3,7 +3,7 @@ import AiocoapModel.Observe.Client
 # The async-iteration interface of an observation: `ClientObservation._Iterator`
 
 Model of `ClientObservation.__aiter__` and `ClientObservation._Iterator`
-(`aiocoap/protocol.py:1190-1272`, after the `fix:` commits for C07: an error pushed while the
+(`aiocoap/protocol.py:1197-1264`, after the `fix:` commits for C07: an error pushed while the
 latest item has not been fetched is kept aside instead of replacing it; an iterator opened on an
 observation that has already ended is still given the last response) together with the asyncio
 semantics it relies on.
@@ -93,7 +93,7 @@ deriving DecidableEq, Repr
 
 variable {α : Type}
 
-/-- `_Iterator.__init__` (`protocol.py:1207-1211`) -/
+/-- `_Iterator.__init__` (`protocol.py:1217-1221`) -/
 def init : St α := { futs := [.pending], slot := 0, deferred := none, cons := .idle }
 
 def St.get (s : St α) (f : Nat) : Fut α := s.futs.getD f .pending
@@ -106,11 +106,11 @@ def St.install (s : St α) (c : Fut α) : St α :=
 def St.complete (s : St α) (c : Fut α) : St α :=
   { s with futs := s.futs.set s.slot c }
 
-/-- `push` (`protocol.py:1213-1217`): a done future — fetched or not — is replaced -/
+/-- `push` (`protocol.py:1223-1227`): a done future — fetched or not — is replaced -/
 def push (s : St α) (m : α) : St α :=
   if (s.get s.slot).done then s.install (.result m) else s.complete (.result m)
 
-/-- `push_err` (`protocol.py:1219-1234`, first `fix:` commit of this round): an unfetched result
+/-- `push_err` (`protocol.py:1229-1244`, first `fix:` commit of this round): an unfetched result
 stays, the error is kept aside -/
 def pushErr (s : St α) (e : ErrKind) : St α :=
   match s.get s.slot with
@@ -120,20 +120,20 @@ def pushErr (s : St α) (e : ErrKind) : St α :=
   | .cancelled => s.install (.exc e)
 
 /-- `except (error.NotObservable, error.ObservationCancelled): raise StopAsyncIteration`
-(`protocol.py:1249-1254`); everything else propagates -/
+(`protocol.py:1259-1264`); everything else propagates -/
 def endOut : ErrKind → Out α
   | .notObservable => .stop
   | .observationCancelled => .stop
   | .transport k => .raise k
 
 /-- the fresh future `__anext__` puts into the slot: completed at once with the error that was
-kept aside, if there is one (`protocol.py:1243-1247`) -/
+kept aside, if there is one (`protocol.py:1253-1257`) -/
 def freshFut : Option ErrKind → Fut α
   | some e => .exc e
   | none => .pending
 
 /-- what `__anext__` does once `await self._future` on future `f` returns or raises
-(`protocol.py:1236-1254`); the consumer is out of `__anext__` afterwards -/
+(`protocol.py:1246-1264`); the consumer is out of `__anext__` afterwards -/
 def finish (s : St α) (f : Nat) : St α × List (Out α) :=
   match s.get f with
   | .result m =>
@@ -192,7 +192,7 @@ def pulls : Nat → St α → St α × List (Out α)
 -- `ClientObservation` around it ------------------------------------------------------------------
 
 /-- what `ClientObservation.callback` / `.error` do to an iterator registered with it
-(`protocol.py:1318-1336`); the response future and `_stop_interest` do not touch it -/
+(`protocol.py:1328-1348`); the response future and `_stop_interest` do not touch it -/
 def opsOfDelivery : Delivery → List (Op Msg)
   | .callback m => [.push m]
   | .errback e => [.pushErr e]
@@ -214,7 +214,7 @@ def firstErrback : List Delivery → Option ErrKind
   | .errback e :: _ => some e
   | _ :: ds => firstErrback ds
 
-/-- `ClientObservation.__aiter__` (`protocol.py:1190-1205`, third `fix:` commit of this round) on an
+/-- `ClientObservation.__aiter__` (`protocol.py:1197-1214`, third `fix:` commit of this round) on an
 observation that has been through the deliveries `ds` already: the new iterator is given
 `_latest_response` (by `register_callback` while the observation runs, by `__aiter__` itself when
 it has ended) and then, if the observation has ended, `_cancellation_reason` (by
